@@ -1,5 +1,6 @@
 import RV.C20.Props
 import RV.C20.TextProps
+import RV.C20.ValuesProps
 open RV.C20
 #print axioms remote_mirrors
 #print axioms deferred_visibility
@@ -16,3 +17,5 @@ open RV.C20
 #print axioms commit_text_is_sequence
 #print axioms separator_survives_trailing_comment
 #print axioms query_text_means_pattern
+#print axioms named_graph_rewrite_means_move
+#print axioms values_block_means_join
